@@ -135,6 +135,7 @@ class NetRun:
         self.stopping = False
         self.inject_at_save = None
         self.link_fault = None
+        self.link_is_down = False
         self.state_diverged = False
         self.inject_at_final_save = None
         self.pending_fault = None
@@ -374,6 +375,9 @@ class NetRun:
         seen_text = text
         if self.broker is not None:
             seen_text = self.mqtt_map(text)[3]
+        else:
+            # a byte link: what cannot be UTF-8 (lone surrogates stand for raw bytes) is decoded with "replace"
+            seen_text = text.encode("utf-8", "surrogateescape").decode("utf-8", "replace")
         if seen_text is None:
             tier, fields = "A", None
         else:
@@ -474,6 +478,25 @@ class NetRun:
             return
         conn.fail_write(OSError(32, "Broken pipe (simulated)"))
         self.link_fault = conn
+
+    def op_linkdown(self):
+        """The link goes away (read error) and every re-dial fails from now on: the gateway is left with a
+        pending reconnect.  Meant to be followed by a stop (restart op), which makes dialling possible again."""
+        world = self.world
+        conn = world.device.current() if self.broker is None else None
+        if conn is None or not hasattr(conn, "fail_read"):
+            self.probe("linkdown_skipped")
+            return
+        import serial as _real_serial  # pylint: disable=import-outside-toplevel
+        world.device.connect_plan = ["fail"] * 200
+        exc = _real_serial.SerialException("device gone") if self.flavour in ("serial", "aserial") else ConnectionResetError(104, "Connection reset by peer")
+        conn.fail_read(exc)
+        self.faults["link_down_before_stop"] = self.faults.get("link_down_before_stop", 0) + 1
+        world.advance(0.7)
+        self.out_lines()
+        self.new_callbacks()
+        self.health()
+        self.link_is_down = True
 
     def _await_link(self):
         """After a lost link: the gateway re-dials on its own; wait (bounded) until it is back."""
@@ -1033,11 +1056,16 @@ class NetRun:
             before = W.projection(world.gateway.sensors)  # what the gateway holds at the instant stop() returns
             if self.persist:
                 disk_at_stop = self.fs.clone()  # the file as it is at that instant
-        except kernel.SimAbort:
+        except (kernel.SimAbort, kernel.SimKilled, kernel.Deadlock):
             raise
-        except Exception as exc:  # pylint: disable=broad-except
+        except BaseException as exc:  # pylint: disable=broad-except
+            # (also asyncio.CancelledError, which is not an Exception)
             self.add(vio("stop-raised", {"exc": repr(exc)}, exc=type(exc).__name__))
             self.clean_history = False
+        if self.link_is_down:
+            self.link_is_down = False
+            if self.broker is None:
+                del world.device.connect_plan[:]
         immediate = bool(opts and opts.get("immediate")) and late_line is None
         if immediate:
             # the application starts the next gateway the moment stop() has returned (same process, same
@@ -1230,6 +1258,8 @@ class NetRun:
                 self._deliver_and_observe(op[1], "\n", at_save=True)
             elif kind == "linkdrop":
                 self.op_linkdrop()
+            elif kind == "linkdown":
+                self.op_linkdown()
             elif kind == "line_at_tick":
                 self._deliver_and_observe(op[1], "\n", at_save="tick")
             elif kind == "raw":
